@@ -211,6 +211,8 @@ func (w *World) comm(cases []selCase, hasDefault bool, name string) (idx int, va
 		w.setH(g, mix(mix(mix(hg, 0xa0+uint64(ci)), c.last), ho))
 		w.setH(o, mix(mix(mix(ho, 0xb0+uint64(j)), c.last), hg))
 		c.last = mix(g.h, o.h)
+		w.share(g, &c.Obj)
+		w.share(o, &c.Obj)
 		if w.record {
 			w.touch(g, &c.Obj)
 			w.touch(o, &c.Obj)
